@@ -41,6 +41,10 @@ KindOf(d, c) == IF IsVirt(c) THEN "seq" ELSE d[c.id].k
 Elems(d, c) == IF IsVirt(c) THEN c.virt ELSE d[c.id].kids       \* element / value / member ids
 ScalarHay(d, i) == Hay(d[i].t, d[i].v)
 IdsToCurs(ids) == [j \in 1..Len(ids) |-> Cur(ids[j])]
+\* flattened positions designated by a result (virtual results by their members)
+RECURSIVE FlatIds(_)
+FlatIds(cs) == IF Len(cs) = 0 THEN <<>> ELSE (IF IsVirt(cs[1]) THEN cs[1].virt ELSE <<cs[1].id>>) \o FlatIds(Tail(cs))
+
 
 \* position (1-based) of Python index n in a list of length len; 0 = out of range
 PyIndex(n, len) == IF n >= 0 THEN (IF n < len THEN n + 1 ELSE 0) ELSE (IF 0 - n <= len THEN len + n + 1 ELSE 0)
@@ -68,6 +72,7 @@ RECURSIVE CatSel(_, _, _, _)             \* concatenation of SelFrom over a list
 RECURSIVE LeavesOf(_, _)
 RECURSIVE TravFilter(_, _, _, _)
 RECURSIVE SearchSeqAcc(_, _, _, _, _, _)
+RECURSIVE CollFold(_, _, _, _, _)
 
 CatMap(d, ids, j, segs, i, tl) ==
   IF j > Len(ids) THEN None ELSE Cat(SegStep(d, Cur(ids[j]), segs, i, tl), CatMap(d, ids, j + 1, segs, i, tl))
@@ -345,6 +350,53 @@ KwStep(d, c, sg) ==
   ELSE NoneInfo
 
 (***************************************************************************)
+(* COLLECTORS  ( (expr), +(expr), -(expr), &(expr) ; processor.py           *)
+(* 1511-1831 ).  A collector gathers what its expression selects from the  *)
+(* current node into one virtual list; the operator-bearing collectors     *)
+(* that follow combine into it: + concatenates, - removes the members      *)
+(* whose value the right-hand expression yields (a value reached under a   *)
+(* Hash key counts as the pair, never as the bare value), & keeps the      *)
+(* members whose value it yields.  Only collections of scalars are         *)
+(* decided; anything else is informational.                                *)
+(***************************************************************************)
+ExprSel(d, c, expr) ==
+  LET p == Parse(expr, "auto", TRUE) IN
+  IF p.out # "done" THEN YPErr ELSE SelFrom(d, c, p.segs, 1)
+\* members a collector expression contributes: a single list result is opened up
+CollMembers(d, r) ==
+  IF Len(r.res) = 1 /\ ~IsVirt(r.res[1]) /\ d[r.res[1].id].k = "seq" THEN d[r.res[1].id].kids
+  ELSE FlatIds(r.res)
+ScalarIds(d, ids) == \A j \in 1..Len(ids) : d[ids[j]].k = "s"
+\* values the right-hand side of - offers (list elements and Set members; not Hash values)
+MinusVals(d, ids) == SelectSeq(ids, LAMBDA x : d[x].par # 0 /\ d[d[x].par].k # "map")
+SameScalar(d, a, b) == IF NumKind(d[a]) /\ NumKind(d[b]) THEN NumEQ(TypedHay(Hay(d[a].t, d[a].v)), TypedHay(Hay(d[b].t, d[b].v)))
+                       ELSE d[a].t = d[b].t /\ d[a].v = d[b].v
+CollFold(d, c, segs, j, acc) ==   \* acc = [err, ids, info, dead]; dead: some operand selected nothing
+  IF j > Len(segs) \/ segs[j].ty # "COLLECTOR" \/ acc.err # "" THEN acc
+  ELSE IF segs[j].cop = "" THEN [acc EXCEPT !.err = "yperr"]            \* adjoining collectors without an operator
+  ELSE LET r == ExprSel(d, c, segs[j].v) IN
+    IF r.err # "" THEN [acc EXCEPT !.err = "yperr"]
+    ELSE LET rids == IF segs[j].cop = "+" THEN FlatIds(r.res) ELSE CollMembers(d, r)
+             info == acc.info \/ r.info \/ ~ScalarIds(d, rids) \/ (\E x \in 1..Len(r.res) : IsVirt(r.res[x]))
+             ids == IF segs[j].cop = "+" THEN acc.ids \o rids
+                    ELSE IF segs[j].cop = "-" THEN
+                      SelectSeq(acc.ids, LAMBDA a : ~\E x \in 1..Len(MinusVals(d, rids)) : SameScalar(d, a, MinusVals(d, rids)[x]))
+                    ELSE SelectSeq(acc.ids, LAMBDA a : \E x \in 1..Len(rids) : SameScalar(d, a, rids[x]))
+         IN CollFold(d, c, segs, j + 1, [err |-> "", ids |-> ids, info |-> info, dead |-> acc.dead \/ r.dead \/ Len(r.res) = 0])
+CollectorStep(d, c, segs, i) ==
+  LET sg == segs[i] IN
+  IF sg.cop # "" THEN Res(<<c>>, FALSE)            \* already folded into its predecessor
+  ELSE IF IsVirt(c) THEN NoneInfo
+  ELSE LET r == ExprSel(d, c, sg.v) IN
+    IF r.err # "" THEN YPErr
+    ELSE LET first == CollMembers(d, r)
+             acc == CollFold(d, c, segs, i + 1, [err |-> "", ids |-> first, dead |-> r.dead \/ Len(r.res) = 0,
+                                                  info |-> r.info \/ ~ScalarIds(d, first) \/ (\E x \in 1..Len(r.res) : IsVirt(r.res[x]))])
+         IN IF acc.err # "" THEN YPErr
+            ELSE IF Len(acc.ids) = 0 THEN [None EXCEPT !.info = acc.info, !.dead = TRUE]
+            ELSE [Res(<<Virt(acc.ids)>>, acc.info) EXCEPT !.dead = acc.dead]
+
+(***************************************************************************)
 (* dispatcher and required-match driver                                    *)
 (***************************************************************************)
 Supported(sg) == sg.ty \in {"KEY", "INDEX", "SLICE", "ANCHOR", "SEARCH", "MATCH_ALL", "TRAVERSE"}
@@ -361,6 +413,7 @@ SegStep(d, c, segs, i, tl) ==
   ELSE IF sg.ty = "TRAVERSE" THEN
        (IF i > 1 /\ segs[i - 1].ty = "TRAVERSE" THEN YPErr ELSE TraverseStep(d, c, segs, i))
   ELSE IF sg.ty = "KEYWORD" THEN KwStep(d, c, sg)
+  ELSE IF sg.ty = "COLLECTOR" THEN CollectorStep(d, c, segs, i)
   ELSE NoneInfo
 
 \* `dead`: some partial match could not be extended by the next segment (a branch the
@@ -371,14 +424,11 @@ SelFrom(d, c, segs, i) ==
        IF st.err # "" THEN st
        ELSE IF Len(st.res) = 0 THEN [st EXCEPT !.dead = TRUE]
        ELSE LET rest == CatSel(d, st.res, segs, i + 1) IN
-            IF rest.err # "" THEN rest ELSE [rest EXCEPT !.info = @ \/ st.info]
+            IF rest.err # "" THEN rest ELSE [rest EXCEPT !.info = @ \/ st.info, !.dead = @ \/ st.dead]
 
 \* A null document answers nothing (processor.py:72-73, 127-131).
 Sel(d, segs) ==
   IF d[Root].k = "s" /\ d[Root].t = "null" THEN None ELSE SelFrom(d, Cur(Root), segs, 1)
 
-\* flattened positions designated by a result (virtual results by their members)
-RECURSIVE FlatIds(_)
-FlatIds(cs) == IF Len(cs) = 0 THEN <<>> ELSE (IF IsVirt(cs[1]) THEN cs[1].virt ELSE <<cs[1].id>>) \o FlatIds(Tail(cs))
 Names(cs) == SelectSeq([j \in 1..Len(cs) |-> cs[j].nm], LAMBDA x : x # "")
 =============================================================================
